@@ -123,6 +123,23 @@ impl Case {
             }
         }
     }
+    /// `pad_fee`, and the collateral grows with the fee: taken out of the collateral return, annotation kept exact
+    pub fn pad_fee_and_collateral(&mut self, extra: u64) -> Option<()> {
+        self.pad_fee(extra);
+        let more = extra * 2;
+        if let Some(ret) = self.body_mut().get_mut(16) {
+            let v = match ret {
+                Cb::Map(..) => ret.get_mut(1)?,
+                _ => ret.items_mut()?.get_mut(1)?,
+            };
+            let c = val_coin(v);
+            val_set_coin(v, c.checked_sub(more)?);
+            if let Some(t) = self.body().get(17).and_then(|t| t.as_u64()) {
+                self.body_mut().set(17, Cb::uint(t + more));
+            }
+        }
+        Some(())
+    }
     /// index of the output with the largest ada amount
     pub fn richest_output(&mut self) -> usize {
         let n = self.n_outputs();
@@ -188,6 +205,110 @@ impl Case {
             self.keys.pop();
         }
         blake224(&k.pk).to_vec()
+    }
+
+    // ---- non-canonical (but well-formed) re-encodings of the transaction
+    pub const ENCODINGS: [&'static str; 4] = ["wide-body-header", "indef-witness-array", "indef-inputs-outputs", "reversed-body-keys"];
+    /// returns false when the style does not apply
+    pub fn reencode(&mut self, style: &str) -> bool {
+        if self.is_byron() {
+            return false;
+        }
+        let ok = match style {
+            "wide-body-header" => match self.body_mut() {
+                Cb::Map(_, w @ Some(_)) => {
+                    *w = Some(1);
+                    true
+                }
+                _ => false,
+            },
+            "indef-witness-array" => match self.wits_mut().get_mut(0) {
+                Some(Cb::Array(_, w)) => {
+                    *w = None;
+                    true
+                }
+                Some(Cb::Tag(258, _, inner)) => match &mut **inner {
+                    Cb::Array(_, w) => {
+                        *w = None;
+                        true
+                    }
+                    _ => false,
+                },
+                _ => false,
+            },
+            "indef-inputs-outputs" => {
+                let mut n = 0;
+                for k in [0u64, 1] {
+                    match self.body_mut().get_mut(k) {
+                        Some(Cb::Array(_, w)) => {
+                            *w = None;
+                            n += 1
+                        }
+                        Some(Cb::Tag(258, _, inner)) => {
+                            if let Cb::Array(_, w) = &mut **inner {
+                                *w = None;
+                                n += 1
+                            }
+                        }
+                        _ => {}
+                    }
+                }
+                n > 0
+            }
+            "reversed-body-keys" => match self.body_mut() {
+                Cb::Map(es, _) => {
+                    es.reverse();
+                    true
+                }
+                _ => false,
+            },
+            _ => false,
+        };
+        if ok {
+            self.resign();
+        }
+        ok
+    }
+    /// Blake2b-256 of the body as pallas-primitives RE-ENCODES it (differs from the transaction id when the
+    /// wire encoding is not the encoder's own)
+    pub fn reencoded_body_hash(&self) -> Option<[u8; 32]> {
+        use pallas_codec::minicbor;
+        use pallas_primitives::{alonzo, babbage, conway};
+        let bytes = self.tx_bytes();
+        let body = match self.era.as_str() {
+            "byron" => return None,
+            "babbage" => minicbor::to_vec(&*minicbor::decode::<babbage::Tx>(&bytes).ok()?.transaction_body).ok()?,
+            "conway" => minicbor::to_vec(&*minicbor::decode::<conway::Tx>(&bytes).ok()?.transaction_body).ok()?,
+            _ => minicbor::to_vec(&*minicbor::decode::<alonzo::Tx>(&bytes).ok()?.transaction_body).ok()?,
+        };
+        Some(crate::case::blake256(&body))
+    }
+    /// sign every witness we own over `hash` (instead of the transaction id)
+    pub fn resign_over(&mut self, hash: [u8; 32]) {
+        let keys = self.keys.clone();
+        if let Some(ws) = self.vkey_wits_mut() {
+            for w in ws.iter_mut() {
+                let Some(it) = w.items_mut() else { continue };
+                let Some(pk) = it[0].as_bytes().cloned() else { continue };
+                if let Some(k) = keys.iter().find(|k| k.pk[..] == pk[..]) {
+                    let sk = pallas_crypto::key::ed25519::SecretKey::from(k.sk);
+                    it[1] = Cb::bytes(sk.sign(hash).as_ref());
+                }
+            }
+        }
+    }
+    /// another collateral input: a copy of the first collateral output under a fresh reference
+    pub fn add_collateral_copy(&mut self, tag: u8, coin: u64) -> Option<()> {
+        let src = self.utxo_index_of(13, 0)?;
+        let mut e: UtxoEntry = self.utxo[src].clone();
+        e.hash = crate::case::blake256(&[&e.hash[..], &[0xc0, tag]].concat());
+        e.role = "coll";
+        let input = Cb::array(vec![Cb::bytes(&e.hash), Cb::uint(e.idx)]);
+        self.body_mut().get_mut(13)?.items_mut()?.push(input);
+        self.utxo.push(e);
+        let u = self.utxo.len() - 1;
+        val_set_coin(self.utxo_value_mut(u)?, coin);
+        Some(())
     }
 
     // ---- Byron: another input of a chosen address kind, owned by a fresh key of ours
@@ -517,6 +638,40 @@ pub fn c33(base: &Case, rng: &mut Rng, thorough: bool) -> Vec<Mutant> {
             }
         }
     }
+    // several collateral inputs whose ada sum is extreme
+    if !base.input_refs(13).is_empty() {
+        for (coins, label) in [(vec![MAX, MAX], "max+max"), (vec![U63, U63], "2^63+2^63"), (vec![MAX - 5_000_000 + 1], "sum=2^64"), (vec![MAX / 2, MAX / 2 + 2], "3-entries")] {
+            let mut c = base.clone();
+            let mut ok = true;
+            for (i, q) in coins.iter().enumerate() {
+                ok &= c.add_collateral_copy(i as u8, *q).is_some();
+            }
+            if ok {
+                c.body_mut().remove(17);
+                c.resign();
+                out.push(m(&format!("multi-collateral/{label}"), c));
+            }
+        }
+    }
+    // a redeemer listed twice under the same pointer (list encoding)
+    if let Some(Cb::Array(items, _)) = base.wits().get(5) {
+        if let Some(first) = items.first().cloned() {
+            let mut c = base.clone();
+            c.wits_mut().get_mut(5).unwrap().items_mut().unwrap().push(first);
+            if c.era == "conway" {
+                conway_fix_script_data_hash(&mut c);
+                c.resign();
+            }
+            out.push(m("redeemer-duplicate-pointer", c));
+        }
+    }
+    // non-canonical re-encodings
+    for style in Case::ENCODINGS {
+        let mut c = base.clone();
+        if c.reencode(style) {
+            out.push(m(&format!("reencoded/{style}"), c));
+        }
+    }
     // collateral arithmetic (Plutus fixtures)
     if !base.input_refs(13).is_empty() {
         let mut c = base.clone();
@@ -819,6 +974,17 @@ pub fn c34(base: &Case, rng: &mut Rng, thorough: bool) -> Vec<Mutant> {
             (MAX, -1, MAX - 1, 0, 0, "spent-2^64-1/burn-1/balanced"),
             (3, i64::MIN as i128, 3, 0, 0, "spent-3/mint-min/produced-3"),
             (0, i64::MAX as i128, i64::MAX as u64, 0, 0, "mint-max/balanced"),
+            // burn / mint magnitudes relative to the spent quantity q = 3 (or 2^64-2): over-burns and sums beyond
+            // 2^64-1, with the produced amount a saturating or a wrapping sum would "balance"
+            (3, -4, 0, 0, 0, "magnitude/burn-q-1/produced-0"),
+            (3, -5, 0, 0, 0, "magnitude/burn-q-2/produced-0"),
+            (3, -5, MAX - 1, 0, 0, "magnitude/burn-q-2/produced-wrapped"),
+            (3, -(1i128 << 63), 0, 0, 0, "magnitude/burn-2^63-of-3/produced-0"),
+            (3, -(1i128 << 63), U63 + 3, 0, 0, "magnitude/burn-2^63-of-3/produced-wrapped"),
+            (MAX - 1, 5, MAX, 0, 0, "magnitude/mint-over-2^64/produced-2^64-1"),
+            (MAX - 1, 5, 3, 0, 0, "magnitude/mint-over-2^64/produced-wrapped"),
+            (MAX - 1, i64::MAX as i128, MAX, 0, 0, "magnitude/mint-max-over-2^64/produced-2^64-1"),
+            (3, -3, 0, 0, 0, "magnitude/burn-q/balanced"),
             // asset-level (not policy-level) forgeries and disappearances under a policy that is being spent
             (5, 0, 5, 0, 1000, "sibling/forged-under-spent-policy"),
             (5, 0, 5, 7, 0, "sibling/vanishes"),
@@ -830,7 +996,7 @@ pub fn c34(base: &Case, rng: &mut Rng, thorough: bool) -> Vec<Mutant> {
             (5, -5, 1, 7, 7, "sibling/burn-entire-quantity/still-produced"),
             (5, -4, 1, 7, 7, "sibling/burn-partial/balanced"),
         ];
-        let chosen: Vec<_> = if thorough { cases } else { cases.into_iter().enumerate().filter(|(i, c)| i % 2 == 0 || c.5.starts_with("sibling") || rng.chance(1, 2)).map(|(_, c)| c).collect() };
+        let chosen: Vec<_> = if thorough { cases } else { cases.into_iter().enumerate().filter(|(i, c)| i % 2 == 0 || c.5.starts_with("sibling") || c.5.starts_with("magnitude") || rng.chance(1, 2)).map(|(_, c)| c).collect() };
         for (inq, mq, outq, sin, sout, label) in chosen {
             let mut c = base.clone();
             // the policy script is only witnessed when something is minted (an unneeded script is rejected)
@@ -918,21 +1084,34 @@ fn reprice(base: &Case, delta: i64) -> Option<Case> {
     None
 }
 
-pub fn c36(base: &Case, _rng: &mut Rng, _thorough: bool) -> Vec<Mutant> {
+pub fn c36(base: &Case, rng: &mut Rng, thorough: bool) -> Vec<Mutant> {
+    let mut out = c36_probes(base, "");
+    // the same probes on non-canonical re-encodings of the fixture (kept only if still accepted as a baseline)
+    let styles: Vec<&str> = if thorough { Case::ENCODINGS.to_vec() } else { vec![Case::ENCODINGS[1], *rng.pick(&[Case::ENCODINGS[0], Case::ENCODINGS[2], Case::ENCODINGS[3]])] };
+    for style in styles {
+        let mut c = base.clone();
+        if c.reencode(style) && c.run().verdict == "accept" {
+            out.extend(c36_probes(&c, &format!("/{style}")));
+        }
+    }
+    out
+}
+
+fn c36_probes(base: &Case, suffix: &str) -> Vec<Mutant> {
     let mut out = vec![];
     if base.is_byron() {
         return out;
     }
     for (d, label) in [(0i64, "fee=min"), (-1, "fee=min-1"), (1, "fee=min+1")] {
         if let Some(c) = reprice(base, d) {
-            out.push(Mutant { class: label.to_string(), rule: String::new(), boundary: true, case: c });
+            out.push(Mutant { class: format!("{label}{suffix}"), rule: String::new(), boundary: true, case: c });
         }
     }
     if let Some(size) = traversal_size(base) {
         for (d, label) in [(0i64, "maxsize=size"), (-1, "maxsize=size-1"), (1, "maxsize=size+1")] {
             let mut c = base.clone();
             c.env.ov.max_tx_size = Some((size as i64 + d) as u64);
-            out.push(Mutant { class: label.to_string(), rule: String::new(), boundary: true, case: c });
+            out.push(Mutant { class: format!("{label}{suffix}"), rule: String::new(), boundary: true, case: c });
         }
     }
     out
@@ -1170,6 +1349,21 @@ pub fn c35(base: &Case, rng: &mut Rng, thorough: bool) -> Vec<Mutant> {
         }
     }
     out.push(m("extra-valid+corrupted/back", c));
+    // non-canonical re-encodings of the body: witnesses over the transaction id (the wire bytes) / over the
+    // hash of the body as the codec would re-encode it
+    for style in Case::ENCODINGS {
+        let mut c = base.clone();
+        if !c.reencode(style) {
+            continue;
+        }
+        out.push(m(&format!("reencoded/{style}/signed-tx-id"), c.clone()));
+        if let Some(h) = c.reencoded_body_hash() {
+            if h != c.body_hash() {
+                c.resign_over(h);
+                out.push(m(&format!("reencoded/{style}/signed-reencoded-hash"), c));
+            }
+        }
+    }
     // duplicates and reorderings
     if n > 0 {
         let mut c = base.clone();
